@@ -258,6 +258,51 @@ def gen_history(rng, scheme, deep=False):
     return ops, {"sut": sut, "groups": groups}
 
 
+def directed_histories(scheme):
+    """Every single-field mutation of a reshare proposal, against a member, a leaver and a joiner, once signed over the
+    mutated terms by their leader and once sent with the signature of the unmutated terms."""
+    class _R:      # deterministic choices for mutate()
+        def below(self, n): return 0
+        def choice(self, xs): return xs[0]
+        def chance(self, a, b): return False
+    hs = []
+    t1 = Terms(bid="default", epoch=1, thr=2, timeout="@+3600", scheme=scheme, genesis="@+100", seed="-", catchup=5, period=30,
+               leader=0, joining=[0, 1, 2], remaining=[], leaving=[])
+    first = [pkt("proposal/" + t1.tok(), 0, 0, signed_terms=t1), "cmd join -", pkt("execute/@+9000", 0, 0, signed_terms=t1),
+             "complete G:101:@+100:abcd:0,1,2 1"]
+    shapes = {1: Terms(bid="default", epoch=2, thr=3, timeout="@+3600", scheme=scheme, genesis="@+100", seed="abcd", catchup=5,
+                       period=30, leader=0, joining=[3], remaining=[0, 1, 2], leaving=[]),
+              2: Terms(bid="default", epoch=2, thr=2, timeout="@+3600", scheme=scheme, genesis="@+100", seed="abcd", catchup=5,
+                       period=30, leader=0, joining=[3], remaining=[0, 1], leaving=[2]),
+              3: Terms(bid="default", epoch=2, thr=3, timeout="@+3600", scheme=scheme, genesis="@+100", seed="abcd", catchup=5,
+                       period=30, leader=0, joining=[3], remaining=[0, 1, 2], leaving=[])}
+    for sut, t2 in shapes.items():
+        for kind in MUTATIONS:
+            m = mutate(_R(), t2, kind, scheme)
+            if m is t2:
+                continue
+            signer = 8 if m.leader == 8 else 0
+            pre = header(scheme) + [f"reset default {sut} {scheme}"] + (first if sut in (1, 2) else [])
+            hs.append(pre + [pkt("proposal/" + m.tok(), m.leader, signer, signed_terms=m), "dump"])
+            hs.append(pre + [pkt("proposal/" + m.tok(), 0, 0, signed_pkt="proposal/" + t2.tok(), signed_terms=t2), "dump"])
+    # the same member seen through the operator's command (leader proposing mutated options)
+    pre0 = header(scheme) + [f"reset default 0 {scheme}", f"cmd initial O1:2:@+3600:@+100:{scheme}:5:30:0,1,2", "cmd execute",
+                             "complete G:101:@+100:abcd:0,1,2 1"]
+    for kind in ("dup-member-drop", "dup-member-leave", "drop-member", "unknown-remaining", "thr0", "thr-high", "no-remaining",
+                 "leader-leaving", "leader-joining", "badsig-joiner", "timeout-past", "clone-joiner", "move-remain-to-leave"):
+        m = mutate(_R(), shapes[1], kind, scheme)
+        hs.append(pre0 + [f"cmd resharing O:{m.thr}:{m.timeout}:{m.catchup}:{lst(m.joining)}:{lst(m.remaining)}:{lst(m.leaving)}", "dump"])
+    # accept / reject for a member whose address also appears, with another key, among the joiners
+    tc = shapes[1].copy(joining=[3, 9], thr=3)
+    for sut in (0, 2):
+        pre = header(scheme) + [f"reset default {sut} {scheme}"] + (first if sut != 0 else pre0[-3:])
+        prop = [pkt("proposal/" + tc.tok(), 0, 0, signed_terms=tc)] if sut != 0 else \
+            [f"cmd resharing O:{tc.thr}:{tc.timeout}:{tc.catchup}:{lst(tc.joining)}:{lst(tc.remaining)}:{lst(tc.leaving)}"]
+        for kind_ in ("accept", "reject"):
+            hs.append(pre + prop + [pkt(f"{kind_}/1", 1, 9, signed_terms=tc), pkt(f"{kind_}/1", 1, 1, signed_terms=tc), "dump"])
+    return hs
+
+
 DUMP = re.compile(r"e=(\d+) s=(\w+) t=(\d+) to=(-?\d+) sch=(\S+) g=(-?\d+) seed=(\S+) c=(\d+) p=(\d+) L=(\S+) R=\[(.*?)\] J=\[(.*?)\] V=\[(.*?)\] A=\[(.*?)\] X=\[(.*?)\] fg=(\S+) sh=(\d)")
 
 
